@@ -52,7 +52,7 @@ def explore(desc, tier, scratch=None, max_violations=3):
             world.pre_actions(j)
             world.snapshot_rw()
             # ---- recording (fault-free) -----------------------------------
-            rec = world.execute(j, fault=None, keep_events=True)
+            rec = world.execute(j, fault=None, keep_events=True, isolated=True)
             st['recordings'] += 1
             m = rec['monitor']
             events = m.events
@@ -88,7 +88,7 @@ def explore(desc, tier, scratch=None, max_violations=3):
             for (k, exc, scope, when) in plan:
                 world.restore_rw()
                 f = inject.Fault(k, exc, tuple(identity(events[k])), when=when)
-                res = world.execute(j, fault=f, keep_events=False)
+                res = world.execute(j, fault=f, keep_events=False, isolated=True)
                 st['injected_runs'] += 1
                 st['faults_by_exc'][exc] = st['faults_by_exc'].get(exc, 0) + 1
                 st['faults_by_when'][when] = st['faults_by_when'].get(when, 0) + 1
@@ -139,7 +139,7 @@ def explore(desc, tier, scratch=None, max_violations=3):
                     extra = {key: '$DIR' if key.endswith(('_REDUX', '_RESOLVE', '_MATCH', '_DIR', '_DATA',
                                                           '_CALIB', '_SKY', '_SWEEP')) else 'flipped'}
                 world.restore_rw()
-                resF = world.execute(j, fault=None, keep_events=False, env_extra=extra)
+                resF = world.execute(j, fault=None, keep_events=False, env_extra=extra, isolated=True)
                 st['env_lookup_flips'] = st.get('env_lookup_flips', 0) + 1
                 st['recordings'] += 1
                 ocF = outcome_class(world, resF)
@@ -158,7 +158,7 @@ def explore(desc, tier, scratch=None, max_violations=3):
             for (kA, excA, oc2) in _pick_chain_heads(tr['injected'], events, win, inv, nchain):
                 world.restore_rw()
                 fA = inject.Fault(kA, excA, tuple(identity(events[kA])))
-                resA = world.execute(j, fault=fA, keep_events=True)
+                resA = world.execute(j, fault=fA, keep_events=True, isolated=True)
                 st['recordings'] += 1
                 mA = resA['monitor']
                 if mA.fired is None or mA.diverged is not None:
@@ -175,7 +175,7 @@ def explore(desc, tier, scratch=None, max_violations=3):
                     world.restore_rw()
                     chain = [inject.Fault(kA, excA, tuple(identity(events[kA]))),
                              inject.Fault(eB['i'], excB, tuple(identity(eB)))]
-                    resB = world.execute(j, fault=chain, keep_events=False)
+                    resB = world.execute(j, fault=chain, keep_events=False, isolated=True)
                     st['injected_runs'] += 1
                     st['chained_runs'] = st.get('chained_runs', 0) + 1
                     mB = resB['monitor']
@@ -381,7 +381,8 @@ def shrink(desc, scratch=None, budget=60):
             return False
         used[0] += 1
         try:
-            r = replay(cand, scratch=scratch)
+            # in a forked child: a replay must not inherit module-level state from the previous one
+            r = util.run_forked(lambda: replay(cand, scratch=scratch))
         except Exception:
             return False
         return same_class(r['violation'], expect)
